@@ -2033,6 +2033,114 @@ theorem average1D_spec (rows : List (List Rat)) (tol : Rat) (avg : List Rat) (h 
 
 example : average1D [[1, 2, 3], [1, 2, 3], [11/10, 2, 3]] (1/5) = some [31/30, 2, 3] := by decide +kernel
 
+/-! ### the decusping pipeline -/
+
+/-- **whatever `_decuspAxialMesh` returns is strictly increasing and has no cell thinner than the minimum** (the last
+step is a `_filterMesh`, so `filterMesh_spec` applies) -/
+theorem decusp_spec (m : Rat) (common fuelB fuelT ctrlB ctrlT out : List Rat)
+    (h : decusp m common fuelB fuelT ctrlB ctrlT = some out) :
+    out.Pairwise (· < ·) ∧ GapsOK m out.reverse := by
+  unfold decusp at h
+  simp only [Option.bind_eq_bind, Option.bind_eq_some_iff] at h
+  obtain ⟨fb, _, ft, _, mb, _, mt, _, an, _, wb, _, wt, _, hfin⟩ := h
+  cases hfm : filterMesh (wb ++ wt) m an true with
+  | ok l =>
+    rw [hfm] at hfin
+    have : l = out := by simpa using hfin
+    subst this
+    obtain ⟨_, h2, _⟩ := filterMesh_spec (wb ++ wt) m an true
+    obtain ⟨s1, _, _, s4⟩ := h2 l hfm
+    exact ⟨s1, by simpa using s4⟩
+  | anchors => rw [hfm] at hfin; cases hfin
+  | fuel => rw [hfm] at hfin; cases hfin
+
+/-- **the generated mesh need NOT reach the top of the core** (known finding): the top of the common mesh is not an
+anchor of the final filter, so with a control-rod top 3 cm below the core top and a 6 cm minimum the point 175 is
+dropped in favour of the anchored 172 — the reference test core's numbers -/
+example : decusp 6 [25, 50, 75, 100, 475/4, 275/2, 625/4, 175] [25] [100] [50] [172]
+    = some [25, 50, 75, 100, 475/4, 275/2, 625/4, 172] := by decide +kernel
+
+/-- ... while with a 2 cm minimum both points survive -/
+example : decusp 2 [25, 50, 75, 100, 475/4, 275/2, 625/4, 175] [25] [100] [50] [172]
+    = some [25, 50, 75, 100, 475/4, 275/2, 625/4, 172, 175] := by decide +kernel
+
+/-! ### mass-conserving block mesh change -/
+
+/-- **`adjustDensity` conserves the atoms of every listed nuclide**: with `frac = hOld / hNew`, density × height of a
+listed nuclide is the same before and after (up to the code's 1e-50 trace term, stated exactly) -/
+theorem adjustDensity_conserves_listed (hOld hNew : Rat) (hn : hNew ≠ 0) (adjust : List Nat) (nd : List (Nat × Rat))
+    (n : Nat) (d : Rat) (hmem : (n, d) ∈ nd) (hl : n ∈ adjust) (hd : d ≠ 0) :
+    (n, d * (hOld / hNew) + TRACE) ∈ adjustDensity (hOld / hNew) adjust nd ∧
+    (d * (hOld / hNew) + TRACE - TRACE) * hNew = d * hOld := by
+  constructor
+  · unfold adjustDensity
+    exact List.mem_map.mpr ⟨(n, d), hmem, by simp [hl, hd]⟩
+  · field_simp; ring
+
+/-- **frame**: every unlisted nuclide (and every zero density) keeps exactly its density; nothing is added or wiped -/
+theorem adjustDensity_frame (frac : Rat) (adjust : List Nat) (nd : List (Nat × Rat)) :
+    (adjustDensity frac adjust nd).map (·.1) = nd.map (·.1) ∧
+    ∀ x ∈ nd, (x.1 ∉ adjust ∨ x.2 = 0) → x ∈ adjustDensity frac adjust nd := by
+  constructor
+  · unfold adjustDensity
+    rw [List.map_map]
+    apply List.map_congr_left
+    intro x _
+    simp only [Function.comp]
+    split_ifs <;> rfl
+  · intro x hx h
+    unfold adjustDensity
+    refine List.mem_map.mpr ⟨x, hx, ?_⟩
+    rcases h with h | h
+    · simp [h]
+    · simp [h]
+
+/-- **`Block.setHeight(conserveMass=True)`**: with a non-empty `adjustList` and a positive new height the call succeeds,
+the height is the requested one and the densities are `adjustDensity (hOld/hNew)`; with an empty list it raises as soon
+as the height really changes; without `conserveMass` the densities are untouched -/
+theorem setHeight_spec (hOld hNew : Rat) (adjust : List Nat) (nd : List (Nat × Rat)) (hpos : 0 < hNew) :
+    (adjust ≠ [] → hOld ≠ hNew →
+      setHeight hOld hNew true adjust nd = some (hNew, adjustDensity (hOld / hNew) adjust nd)) ∧
+    (hOld ≠ hNew → setHeight hOld hNew true [] nd = none) ∧
+    setHeight hOld hNew false adjust nd = some (hNew, nd) ∧
+    setHeight hOld hOld true adjust nd = (if hOld < 0 then none else some (hOld, nd)) := by
+  have h1 : ¬ hNew < 0 := not_lt.mpr (le_of_lt hpos)
+  have h2 : hNew ≠ 0 := ne_of_gt hpos
+  refine ⟨?_, ?_, ?_, ?_⟩
+  · intro ha hne
+    have : adjust.isEmpty = false := by cases adjust <;> simp_all
+    simp [setHeight, h1, h2, hne, this]
+  · intro hne; simp [setHeight, h1, hne]
+  · simp [setHeight, h1]
+  · simp [setHeight]
+
+/-- **`setBlockMesh`, one block**: a component whose mass is to be conserved (`_shouldMassBeConserved` / the flag) keeps
+density × height for every nuclide; every other component keeps its densities -/
+theorem meshBlock_spec (m : CMode) (af bf below : Bool) (hOld hNew : Rat) (hpos : 0 < hNew) (cs cs' : List MComp)
+    (h : meshBlock m af bf below hOld hNew cs = some cs') :
+    cs'.length = cs.length ∧
+    ∀ (i : Nat) (c : MComp), cs[i]? = some c → ∃ c', cs'[i]? = some c' ∧ c'.fuel = c.fuel ∧ c'.fluid = c.fluid ∧
+      (conserves m af bf below c = true → c'.nd.map (· * hNew) = c.nd.map (· * hOld)) ∧
+      (conserves m af bf below c = false → c'.nd = c.nd) := by
+  have h1 : ¬ hNew < 0 := not_lt.mpr (le_of_lt hpos)
+  have h2 : hNew ≠ 0 := ne_of_gt hpos
+  unfold meshBlock at h
+  simp only [h1, h2, if_false, decide_false, Bool.and_false, Bool.false_eq_true] at h
+  have hcs := (Option.some.inj h).symm
+  subst hcs
+  refine ⟨by simp, ?_⟩
+  intro i c hc
+  by_cases hk : conserves m af bf below c = true
+  · refine ⟨{ c with nd := c.nd.map (fun d => d * (hOld / hNew)) }, by rw [List.getElem?_map, hc]; simp [hk], rfl, rfl,
+      fun _ => ?_, fun h' => (by rw [hk] at h'; cases h')⟩
+    simp only []
+    rw [List.map_map]
+    apply List.map_congr_left
+    intro d _
+    simp only [Function.comp]; field_simp
+  · have hk' : conserves m af bf below c = false := by simpa using hk
+    exact ⟨c, by rw [List.getElem?_map, hc]; simp [hk'], rfl, rfl, fun h' => (by rw [hk'] at h'; cases h'), fun _ => rfl⟩
+
 /-- non-vacuity: the docstring example of `getBlocksBetweenElevations` (blocks 0–25–50–100, window 0–30) -/
 example : blocksBetween [⟨0, 25, 25, (1 : Nat)⟩, ⟨25, 50, 25, 2⟩, ⟨50, 100, 50, 3⟩] 0 30 = some [(1, 25), (2, 5)] := by
   decide +kernel
